@@ -280,11 +280,75 @@ def task_linalg():
 task_linalg.contract_fn = "heavy.Linalg.invert"
 
 
+def task_int_data():
+    """Fraction knots with control points AND weights given as plain Python ints (the property's precondition): every operation still yields int / Fraction
+    numbers (never int / int -> float) and the same function."""
+    fn = "C16"
+    out = []
+    cases = {
+        "p2": ([0, 0, 0, 2, 4, 4, 4], [3, -1, 4, 2], [1, 2, 1, 3]),
+        "p1": ([0, 0, 1, 3, 3], [2, 5, -1], [2, 1, 3]),
+        "p2-double": ([0, 0, 0, 2, 2, 5, 5, 5], [1, 0, 3, -2, 4], [1, 3, 2, 1, 2]),
+        "p3": ([0, 0, 0, 0, 6, 6, 6, 6], [1, 5, -3, 2], [2, 1, 1, 3]),
+    }
+    for name, (U, P, W) in cases.items():
+        U = [F(x) for x in U]
+        p = U.count(U[0]) - 1
+        inner = sorted(set(U))[1:-1]
+        node_new = F(1) if 1 not in U else F(3)
+        runs = {
+            "insert-one-int-node": lambda c: c.knot_insert([node_new]),
+            "insert-one-fraction-node": lambda c: c.knot_insert([F(7, 3)]),
+            "insert-two": lambda c: c.knot_insert([node_new, node_new]),
+            "elevate": lambda c: c.degree_increase(1),
+            "split-new-node": lambda c: c.split([node_new]),
+            "split-all": lambda c: c.split(),
+        }
+        if inner:
+            runs["insert-existing-knot"] = lambda c: c.knot_insert([inner[0]]) if U.count(inner[0]) < p else None
+            runs["split-at-knot"] = lambda c: c.split([inner[0]])
+        for rational in (True, False):
+            for label, run in runs.items():
+                c = Curve(list(U), list(P), list(W) if rational else None)
+                try:
+                    r = run(c)
+                except ValueError:
+                    continue
+                curves_ = list(r) if isinstance(r, (tuple, list)) else [c]
+                bad = None
+                for q in curves_:
+                    nums = flat_numbers([list(q.knotvector), list(q.ctrlpoints), list(q.weights) if q.weights is not None else []])
+                    if not all(type(x) in (int, Fraction) or isinstance(x, (np.integer,)) for x in nums):
+                        bad = "non-exact numbers: %s" % sorted({type(x).__name__ for x in nums})
+                        break
+                    a, b = q.knotvector.limits
+                    for s_ in range(1, 6):
+                        u = F(a) + (F(b) - F(a)) * F(s_, 6)
+                        exp = spec.curve_value([F(x) for x in U], p, [F(x) for x in P], u, [F(x) for x in W] if rational else None)
+                        got = q(u)
+                        if isinstance(got, float) or got != exp:
+                            bad = "value at %s is %r, expected %s" % (u, got, exp)
+                            break
+                    if bad:
+                        break
+                out.append(ob("C16:int-data[%s,%s,%s]" % (name, label, "rat" if rational else "pol"), fn, FAILED if bad else PROVED, "B", "concrete", 0.0,
+                              bad or "exact numbers only, same function", dict(kind="c16.int", case=name, label=label, rational=rational) if bad else None))
+    return out + [{"_stats": dict(cases=len(out))}]
+
+
+task_int_data.contract_fn = "curves.Curve.knot_insert"
+
+
 def tasks(tier, seed):
-    return [(task_exact, (v,)) for v in VECTORS] + [(task_points, ()), (task_linalg, ())]
+    return [(task_exact, (v,)) for v in VECTORS] + [(task_points, ()), (task_linalg, ()), (task_int_data, ())]
 
 
 def replay(o):
+    if (o.get("witness") or {}).get("kind") == "c16.int":
+        w = o["witness"]
+        tag = "[%s,%s,%s]" % (w["case"], w["label"], "rat" if w["rational"] else "pol")
+        r = [x for x in task_int_data() if "id" in x and x["id"].endswith(tag)][0]
+        return r["status"] == FAILED, "only int / Fraction numbers and the same function", r["detail"]
     w = o["witness"]
     if w["kind"] in ("c16.exact", "c16.float"):
         U, p = VECTORS[w["vector"]]
